@@ -61,11 +61,13 @@ CLAIMS = {
    text="PROVED (Props/C12a-d): rook/bishop/queen attack sets equal the squares reachable along open lines up to the first blocker for every square and all 2^64 occupancies (rookAttacks_exact etc.: ray-walker induction, "
         "kernel-checked per-square injectivity of the 128 dumped magic multipliers over all 107648 relevant subsets, mask irrelevance); knight/king/pawn tables and pawn pushes exact; attackers of a square and check detection exact "
         "(squareAttackedBy_exact, isInCheck_exact); shifts/leaper formulas regenerated from the source text and proved equal to the model (C12c). Tie: all leaper entries, table entries, random occupancies, attackers on generated positions.", ref='5/C12, 10.4'),
- 'C13': dict(cat='proof', tech='Lean 4 lemmas on the search model (checkmate value, score range) + correspondence + spec judge on a mate-in-one pool',
-   text="Proved lemmas (Props/C13): a checkmated node returns -INF+ply, all scores stay in range and stored scores stay sane; the end-to-end statement is NOT proved (zero-window TT cut-offs at ply 1 with arbitrary tables). "
-        "Decided by: positions with a mating move searched at depths 1-4 with cancellation at many polls after searches of predecessor positions filled the tables and with the clock at 98/99/100; answers judged by the spec / engine generator "
-        "(the move played mates) and compared with the Lean search model.", ref='5/C13, 10.4',
-   note='Partial: the end-to-end theorem is open; the property is decided by correspondence plus oracle exploration.'),
+ 'C13': dict(cat='proof', tech='Lean 4 end-to-end theorem search_plays_mate on the search model (all table states satisfying the preserved invariant, all cancellation points) + correspondence + spec judge on a mate-in-one pool',
+   text="PROVED on the search model (Props/C13, C13b): if some move mates, every completed full-window root search of depth 1..254 returns INF-1 with a mating move heading its PV (searchRoot_mate_in_one) and "
+        "search answers with a mating move for every cancellation point incl. the immediate one (search_plays_mate), for every table state in which stored scores are in range and no usable entry sits under the hash of a "
+        "checkmated child - an invariant every search preserves and the empty table satisfies - assuming no 64-bit hash collision between a checkmated child and a reachable position with a legal move. "
+        "Tie: the search model is compared with the Go search node for node; mate-in-one positions searched at depths 1-4 with cancellation at many polls after searches of predecessor positions and with the clock at 98/99/100, "
+        "answers judged by the spec / engine generator.", ref='5/C13, 10.4',
+   note='Conditional on absence of 64-bit hash collisions (false in general by counting; a hypothesis on the positions reachable from the root).'),
  'C14': dict(cat='proof', tech='Lean 4 refinement of the bucket table to the log of saves + correspondence on colliding histories',
    text="PROVED (Props/C14): every non-empty entry is exactly one logged save (stored_from_log); a usable score comes from a save of that hash with at least the requested depth and respects its bound (get_sound); "
         "the suggested move was stored with that hash; a never-stored hash yields nothing; a save is found afterwards. Tie: colliding histories compared result by result; soundness decided against the log on the Go side.", ref='5/C14, 10.4'),
